@@ -136,6 +136,51 @@ def run(sid: str, pids, tier: str) -> int:
         shutil.rmtree(scratch, ignore_errors=True)
 
 
+def harmless(wt: Path, n: str, hid: str) -> int:
+    """file a behaviour-preserving refactor (out/patch<n>.diff + out/note<n>.json) under harmless/<hid>/ and run EVERY claimed
+    check against it: all of them should stay quiet (exit 0)"""
+    from concurrent.futures import ThreadPoolExecutor
+    dst = VERIF / "harmless" / hid
+    dst.mkdir(parents=True, exist_ok=True)
+    shutil.copy(wt / "out" / f"patch{n}.diff", dst / "patch.diff")
+    note = json.loads((wt / "out" / f"note{n}.json").read_text())
+    manifest = json.loads((VERIF / "MANIFEST.json").read_text())
+    pids = [c["property_id"] for c in manifest["checks"]]
+    scratch = Path("/tmp/seedrun") / f"{hid}-{os.getpid()}"
+    if scratch.exists():
+        shutil.rmtree(scratch)
+    scratch.mkdir(parents=True)
+    try:
+        sh(["rsync", "-a", "--exclude", ".git", "--exclude", "replays", "--exclude", ".run", "--exclude", "seeded", "--exclude", "harmless", "--exclude", "design_probes", f"{VERIF}/", f"{scratch}/verif/"])
+        sh(["rsync", "-a", "--exclude", ".git", "/repo/", f"{scratch}/repo/"])
+        code, o = sh(["git", "apply", str(dst / "patch.diff")], cwd=scratch / "repo")
+        assert code == 0, f"patch does not apply to the current /repo: {o}"
+        env = dict(os.environ, VERIF_REPO=str(scratch / "repo"))
+
+        def one(pid):
+            t = time.time()
+            code, out = sh(["./check", pid, "--tier", "quick"], cwd=scratch / "verif", env=env, timeout=5400)
+            lines = [l[:400] for l in out.splitlines() if l.startswith(("VIOLATION", "FAIL", "HARNESS-ERROR"))]
+            why = []
+            for l in lines:
+                m = re.search(r"replay=(\S+)", l)
+                if m and Path(m.group(1)).exists():
+                    rp = json.loads(Path(m.group(1)).read_text())
+                    why.append({"kind": rp.get("kind"), "clause": rp.get("clause"),
+                                "tie_broken": [str(t_.get("what") or t_.get("theorem") or t_.get("module"))[:300] for t_ in rp.get("tie_broken", [])][:4],
+                                "disagreements": [d.get("what") for d in rp.get("disagreements", [])][:3]})
+            return pid, {"exit": code, "wall_s": round(time.time() - t, 1), "lines": lines[:4], "why": why[:3]}
+        with ThreadPoolExecutor(max_workers=5) as ex:
+            results = dict(ex.map(one, pids))
+        alarms = {k: v for k, v in results.items() if v["exit"] != 0}
+        (dst / "meta.json").write_text(json.dumps({"id": hid, "note": note, "origin": "independent sub-agent asked for behaviour-preserving refactors (suite 193/2 unchanged)",
+                                                   "alarms": alarms, "quiet": sorted(k for k, v in results.items() if v["exit"] == 0)}, indent=1) + "\n")
+        print(json.dumps({"id": hid, "alarms": alarms}, indent=1))
+        return 0
+    finally:
+        shutil.rmtree(scratch, ignore_errors=True)
+
+
 if __name__ == "__main__":
     a = sys.argv[1:]
     if a[0] == "confirm":
@@ -147,4 +192,6 @@ if __name__ == "__main__":
             tier = a[i + 1]
             del a[i:i + 2]
         sys.exit(run(a[1], a[2:], tier))
+    if a[0] == "harmless":
+        sys.exit(harmless(Path(a[1]), a[2], a[3]))
     print(__doc__)
